@@ -9,6 +9,8 @@ if [ "$1" = "--clean" ]; then
   rm -rf coq/Makefile coq/Makefile.conf coq/.*.aux coq/*.ml coq/*.mli ocaml/_build
 fi
 cd "$ROOT/coq"
+# one build at a time: checks started in parallel after a source change would otherwise run make in the same directory
+exec 9>"$ROOT/coq/.build.lock"; flock 9
 # fail closed on forbidden constructs anywhere in the development
 if grep -rnE '\b(Admitted|admit|Axiom|Parameter|Conjecture|Unset Guard|bypass_check|Admit Obligations|native_compute)\b' theories --include=*.v | grep -v '^\S*:\s*[0-9]*:\s*(\*' ; then
   echo "forbidden construct in Coq sources" >&2; exit 2
